@@ -134,6 +134,14 @@ CHECKS = {
              "states include filled caches and overrides, reached by real reads/assignments -- is executed on the real classes; TLC judges Fresh on the observed object, the "
              "value every read returns, and (through the Step equality that includes the cache slots) that unrelated or failing mutations discard nothing.",
         note=TB, technique="TLA+ spec + TLC model checking (Fresh invariant); spec->code replay of every (state, action); TLC-judged", ref="3 C11"),
+    "C09": dict(
+        text="SpecClassMeta.tla gives construction twice: declaratively (Expected: keyword value, else nearest default along the MRO incl. plain-subclass overrides, else missing; "
+             "the owner's constructor -- generated or hand-written of the documented shape -- applied; key required iff no default; unknown keywords rejected unless an overflow "
+             "attribute collects them; init=False attributes not accepted; __post_init__ once) and operationally (Construct: the owner-directed walk over the reversed MRO). "
+             "TLC checks Expected == Construct for every instantiable class of 13 hierarchies x every keyword set of the model, and that a named deviation breaks it. The same "
+             "cases are executed on real classes rendered from the same table (keyword and positional key), and TLC judges outcome class, every attribute value, the "
+             "__post_init__ call count and that it ran after all attributes were set.",
+        note=TB, technique="TLA+ declarative vs operational construction rule (TLC); TLC-enumerated cases executed on real hierarchies; TLC-judged", ref="3 C09"),
 }
 
 PENDING = "check not built yet in this round (see DESIGN.md section 3 for the planned TLA+ module)"
